@@ -117,4 +117,24 @@ static inline void K_std_fill_f(float* first, float* last, float value)
 #else
 #define C08_SUBDOMAIN(k, N) ((k) % (N) != 0)
 #endif
+
+/* ---- the tail of OSSPSReconstruction::update_estimate after the additive update ("now threshold image") ----
+   Statement kernel. From the property: "maps lambda to clamp(lambda + ..., 0, upper bound). Iterates therefore always lie
+   within [0, upper bound]": whatever the tail does, afterwards every element equals clamp(old, 0, (float)upper_bound). */
+/* *std::min_element / *std::max_element over the image (used by the log message; any other use must respect this contract) */
+float K_min_elem(const float* begin, const float* end)
+__CPROVER_requires(SEQ_OK(begin, end) && begin != end)
+__CPROVER_assigns()
+__CPROVER_ensures(GHOST_IN(begin, end) ==> !(begin[g_j] < __CPROVER_return_value))
+;
+float K_max_elem(const float* begin, const float* end)
+__CPROVER_requires(SEQ_OK(begin, end) && begin != end)
+__CPROVER_assigns()
+__CPROVER_ensures(GHOST_IN(begin, end) ==> !(begin[g_j] > __CPROVER_return_value))
+;
+#define CONTRACT_K_ossps_clamp_tail                                                                                  \
+  __CPROVER_requires(SEQ_OK(begin, end) && begin != end && upper_bound >= 0 && upper_bound <= FLT_MAX)                 \
+  __CPROVER_requires(!GHOST_IN(begin, end) || (begin[g_j] == g_old && NOT_NAN(g_old)))                                 \
+  __CPROVER_assigns(SEQ_ASSIGNS(begin, end))                                                                           \
+  __CPROVER_ensures(GHOST_IN(begin, end) ==> (begin[g_j] == CLAMP(g_old, 0.F, (float)upper_bound) && 0.F <= begin[g_j] && begin[g_j] <= (float)upper_bound))
 #endif
